@@ -355,7 +355,7 @@ def case_timer(rng, tier, res):
                 d = rng.randint(0, nrx + 10)
             else:
                 d = nrx + rng.randint(2, 40)
-            if len(res.desc["script"]) < 12:
+            if len(res.desc["script"]) < 5:
                 res.desc["script"].append({"speed": SPEEDNAME[speed], "hold": hold, "ifaces": who, "wait": d})
             res.sig(hold, tuple(who), d)
             # optional unjudged speed glitch inside the measurement
@@ -524,7 +524,7 @@ def case_tokdet(rng, tier, res):
                 kind, pkt = noise_token(rng, own)
                 st["cur_start"] = False
                 prev_noise = True
-            if len(res.desc["packets"]) < 10:
+            if len(res.desc["packets"]) < 4:
                 res.desc["packets"].append({"speed": SPEEDNAME[speed], "kind": kind, "pkt": pkt.hex(), "gaps": str(gp), "trail": trail})
             res.sig(kind, pkt, gp, trail)
             yield from send_packet(b, utmi, rng, pkt, gp, trail=trail)
@@ -679,7 +679,7 @@ def case_rxdata(rng, tier, res):
                 kind, pkt = noise_data(rng)
                 st["cur_start"] = False
                 prev_noise = True
-            if len(res.desc["packets"]) < 10:
+            if len(res.desc["packets"]) < 4:
                 res.desc["packets"].append({"speed": SPEEDNAME[speed], "kind": kind, "pkt": pkt.hex(), "gaps": str(gp), "trail": trail})
             res.sig(kind, pkt, gp, trail)
             yield from send_packet(b, utmi, rng, pkt, gp, trail=trail)
@@ -845,7 +845,7 @@ def case_device(rng, tier, res):
                 if U.classify(pkt)["kind"] == "token":
                     kind = "other"
             st["cur"] = kind
-            if len(res.desc["packets"]) < 10:
+            if len(res.desc["packets"]) < 4:
                 res.desc["packets"].append({"kind": kind, "pkt": pkt.hex(), "gaps": str(gp), "trail": trail})
             res.sig(kind, pkt, gp, trail)
             yield from send_packet(b, utmi, rng, pkt, gp, trail=trail)
